@@ -4,7 +4,7 @@ from harness.common import Check, import_lib, draft_classes
 from harness.encode import dec_str
 
 DRAFTS = (3, 4, 6, 7)
-INST = {"null": None, "true": True, "int": 256, "float": 1.5, "arr": [1], "obj": {"a": 1}}
+INST = {"null": None, "true": True, "int": 1, "float": 1.0, "arr": [1], "obj": {"a": 1}}      # 1 == True == 1.0 in Python, three JSON values
 
 
 class Listed(Exception):
@@ -54,6 +54,8 @@ def build_checker(js, base, regs, salt=0, before_regs=None):
             fc.checks(reg["name"])(lambda inst: "yes")
         elif beh == "falsy":
             fc.checks(reg["name"])(lambda inst: 0)
+        elif beh == "intonly":
+            fc.checks(reg["name"])(lambda inst: type(inst) is int)
         elif beh == "listed":
             def f1(inst, n=n):
                 raised[n] = Listed("listed %d" % n)
@@ -74,16 +76,17 @@ def main(args):
     quick = args.tier == "quick"
     ck.rule = ("configurations = reachable states of spec/mc/MC_C12: base checker in {none, FormatChecker(), "
                "FormatChecker(formats=['email', 'ipv4', 'date']), FormatChecker(formats=()), draft3/draft4/draft7 checker objects} x <= %d "
-               "registrations checker.checks(name, raises)(fn) with fn truthy / falsy / raising a listed / an unlisted exception, "
+               "registrations checker.checks(name, raises)(fn) with fn truthy / falsy / true for integers proper only / raising a listed / an unlisted exception, "
                "on a new name, on the empty name, or overriding a built-in, the validator constructed before or after them x probes (7 format names incl. unknown and empty x 12 "
                "instances of every JSON type incl. strings in and outside the built-in grammars); the expected outcome (pass / "
                "error without cause / error whose cause IS the raised exception / the exception escapes unchanged) is exported "
-               "and replayed through validation in 4 drafts and through conforms(). Non-trivial: a checker is present and knows "
+               "and replayed through validation in 4 drafts (on one reused validator per configuration that has already seen every probe instance) and through conforms(). Non-trivial: a checker is present and knows "
                "the name; distinct by (configuration, name, instance)." % (2 if quick else 3))
     r = tlc.run("mc/MC_C12.tla", cfg="mc/MC_C12_%s.cfg" % args.tier, workers=16, timeout=3000, coverage=True)
     if r.violation:
         raise tlc.MachineryFailure("format protocol model violated: " + r.violation)
     ck.add_tlc(r, "MC_C12")
+    reused = {}
     for ex in r.exports:
         x = ex["x"]
         inst = dec_str(x["s"]) if x["k"] == "str" else INST[x["k"]]
@@ -91,10 +94,21 @@ def main(args):
         ck.replayed += 1
         ck.count((ex["base"], ex["early"], repr(ex["regs"]), ex["name"], repr(inst)), ex["base"] != "none" and want != "pass" or bool(ex["regs"]))
         for d in DRAFTS:
-            made = []
-            fc, raised = build_checker(js, ex["base"], ex["regs"], salt=d + len(ck.distinct),
-                                       before_regs=(lambda c: made.append(cls[d]({"format": ex["name"]}, format_checker=c))) if ex["early"] else None)
-            v = made[0] if ex["early"] else cls[d]({"format": ex["name"]}, format_checker=fc)
+            # one validator object per (configuration, name, draft) for the whole run: it has seen every probe instance
+            # (the integer first) before any result is looked at, and goes on being used
+            key = (ex["base"], ex["early"], repr(ex["regs"]), ex["name"], d)
+            if key not in reused:
+                made = []
+                fc, raised = build_checker(js, ex["base"], ex["regs"], salt=d + len(reused),
+                                           before_regs=(lambda c: made.append(cls[d]({"format": ex["name"]}, format_checker=c))) if ex["early"] else None)
+                v = made[0] if ex["early"] else cls[d]({"format": ex["name"]}, format_checker=fc)
+                for warm in [INST["int"], INST["true"], INST["float"], INST["null"], "a@b", "ab", [1], {"a": 1}]:
+                    try:
+                        v.is_valid(warm)
+                    except Exception:  # noqa -- unlisted exceptions escape by design
+                        pass
+                reused[key] = (v, fc, raised)
+            v, fc, raised = reused[key]
             got, detail = None, None
             try:
                 errs = list(v.iter_errors(inst))
